@@ -1,3 +1,412 @@
-import MCHap.Model.Trace
+import MCHap.Proofs.TraceAcc
+import MCHap.Properties.C11
+
+/-!
+# C14 — posterior summaries are exact functionals of the retained trace
+
+Property theorems over `MCHap/Model/Trace.lean` (model of `assemble.classes.GenotypeMultiTrace`,
+`PosteriorGenotypeDistribution`, `calling.classes.GenotypeAllelesMultiTrace`,
+`PosteriorGenotypeAllelesDistribution`, `mset.unique / count / unique_counts`).
+
+`le` is the order used for the canonical sort (`lexLe` on haplotypes, `natLe` on allele indices); every theorem
+about the assemble classes holds for any linear `le` (`LinLe`), instantiated at the end.
+`merged (burn n t)` = the retained steps of all chains as stored (any within-step order).
+-/
 namespace MCHap.C14
+open MCHap MCHap.Trace
+set_option linter.unusedSectionVars false
+
+section generic
+variable {α : Type} [DecidableEq α] {le : α → α → Bool}
+
+/-- the retained canonical steps are the canonical forms of the retained raw steps (sort and burn commute) -/
+theorem merged_burn_canon (n : ℕ) (t : RawTrace α) :
+    merged (burn n (canonTrace le t)) = (merged (burn n t)).map (canon le) := by
+  unfold merged burn canonTrace
+  rw [List.map_flatten]
+  simp [List.map_map, Function.comp_def, List.map_drop]
+
+/-- **the reported probability of a genotype is its relative frequency among the retained steps, as multisets**:
+    for every genotype `G` (in any order), the posterior lists `canon G` with probability
+    `#{retained steps that are permutations of G} / #{retained steps}` (0 = not listed). -/
+theorem posterior_is_empirical (h : LinLe le) (n : ℕ) (t : RawTrace α) (G : List α) :
+    probOf (posterior le n t) (canon le G)
+      = (((merged (burn n t)).countP (fun s => decide (s.Perm G)) : ℕ) : ℚ)
+          / (((merged (burn n t)).length : ℕ) : ℚ) := by
+  unfold posterior
+  rw [merged_burn_canon, probOf_posteriorOf, List.length_map, count_map_eq_countP]
+  congr 2
+  apply List.countP_congr
+  intro s _
+  simp only [decide_eq_true_eq]
+  exact canon_eq_iff h s G
+
+/-- the listed genotypes are pairwise distinct, canonical, each the canonical form of a retained step, with
+    positive probability equal to the relative frequency -/
+theorem posterior_entries (h : LinLe le) (n : ℕ) (t : RawTrace α) :
+    ((posterior le n t).map (·.1)).Nodup ∧
+    ∀ g p, (g, p) ∈ posterior le n t →
+      (∃ s ∈ merged (burn n t), g = canon le s) ∧ g.Pairwise (fun a b => le a b) ∧ 0 < p ∧
+      p = (((merged (burn n t)).countP (fun s => decide (s.Perm g)) : ℕ) : ℚ)
+            / (((merged (burn n t)).length : ℕ) : ℚ) := by
+  refine ⟨posteriorOf_keys_nodup _, ?_⟩
+  intro g p hgp
+  have hnd : ((posterior le n t).map (·.1)).Nodup := posteriorOf_keys_nodup _
+  have hp := probOf_of_mem hnd hgp
+  unfold posterior at hgp
+  rw [merged_burn_canon] at hgp
+  obtain ⟨hg, hpe⟩ := mem_posteriorOf.mp hgp
+  obtain ⟨s, hs, rfl⟩ := List.mem_map.mp hg
+  have hcanon : canon le (canon le s) = canon le s := canon_idem h s
+  refine ⟨⟨s, hs, rfl⟩, canon_pairwise h s, ?_, ?_⟩
+  · rw [hpe]
+    have hpos := count_pos_of_mem hg
+    have hlen : 0 < ((merged (burn n t)).map (canon le)).length := List.length_pos_of_mem hg
+    exact div_pos (by exact_mod_cast hpos) (by exact_mod_cast hlen)
+  · rw [← hp, ← hcanon, posterior_is_empirical h, hcanon]
+
+/-- the probabilities sum to one -/
+theorem posterior_sum_one (n : ℕ) (t : RawTrace α) (hne : merged (burn n t) ≠ []) :
+    ((posterior le n t).map (·.2)).sum = 1 := by
+  have := expectation_posteriorOf (merged (burn n (canonTrace le t))) (fun _ => (1 : ℚ))
+  simp only [mul_one] at this
+  unfold posterior
+  rw [this, merged_burn_canon]
+  simp only [List.map_const', List.length_map, List.sum_replicate]
+  have : (merged (burn n t)).length ≠ 0 := by simpa using hne
+  rw [nsmul_eq_mul, mul_one, div_self]
+  exact_mod_cast this
+
+/-- listed by decreasing probability -/
+theorem posterior_sorted (n : ℕ) (t : RawTrace α) :
+    (posterior le n t).Pairwise (fun a b => b.2 ≤ a.2) := sortDesc_pairwise _
+
+/-- **burn-in removes exactly the first `n` steps of every chain**: chain `c` of the burnt trace is chain `c`
+    without its first `n` steps (step `i` of it is step `n + i` of the original), the number of chains is
+    unchanged, and for `S`-step chains exactly `chains · (S − n)` steps are retained. -/
+theorem burn_exact (n : ℕ) (t : RawTrace α) :
+    (burn n t).length = t.length ∧
+    (∀ (c : ℕ) (ch : List (List α)), t[c]? = some ch → (burn n t)[c]? = some (ch.drop n) ∧ ch = ch.take n ++ ch.drop n ∧
+        (ch.drop n).length = ch.length - n ∧ ∀ i, (ch.drop n)[i]? = ch[n + i]?) ∧
+    (∀ S, (∀ ch ∈ t, ch.length = S) → (merged (burn n t)).length = t.length * (S - n)) := by
+  refine ⟨by simp [burn], ?_, ?_⟩
+  · intro c ch hc
+    refine ⟨by simp [burn, hc], (List.take_append_drop n ch).symm, by simp, ?_⟩
+    intro i; simp
+  · intro S hS
+    unfold merged burn
+    rw [List.length_flatten, List.map_map]
+    have : (t.map (List.length ∘ List.drop n)) = t.map (fun _ => S - n) := by
+      apply List.map_congr_left
+      intro ch hch
+      simp [hS ch hch]
+    rw [this]
+    simp
+
+/-- **order invariance**: if every stored step of `t'` is a permutation of the corresponding step of `t`, the two
+    traces have the same canonical form — hence the same posterior and (below) the same value of every summary -/
+theorem canonTrace_perm_invariant (h : LinLe le) (t t' : RawTrace α)
+    (hp : List.Forall₂ (List.Forall₂ List.Perm) t t') : canonTrace le t = canonTrace le t' := by
+  unfold canonTrace
+  induction hp with
+  | nil => rfl
+  | cons hch _ ih =>
+    simp only [List.map_cons]
+    congr 1
+    induction hch with
+    | nil => rfl
+    | cons hs _ ih2 =>
+      simp only [List.map_cons]
+      congr 1
+      exact (canon_eq_iff h _ _).mpr hs
+
+theorem posterior_perm_invariant (h : LinLe le) (n : ℕ) (t t' : RawTrace α)
+    (hp : List.Forall₂ (List.Forall₂ List.Perm) t t') :
+    posterior le n t = posterior le n t' ∧
+    (∀ thr, replicateIncongruence thr (burn n (canonTrace le t)) = replicateIncongruence thr (burn n (canonTrace le t'))) := by
+  unfold posterior
+  rw [canonTrace_perm_invariant h t t' hp]
+  exact ⟨rfl, fun _ => rfl⟩
+
+/-- **every expectation under the reported posterior is the average over the retained steps** (the source of
+    all the summary identities below) -/
+theorem expectation_eq (n : ℕ) (t : RawTrace α) (f : List α → ℚ) :
+    ((posterior le n t).map (fun gp => gp.2 * f gp.1)).sum
+      = ((merged (burn n t)).map (fun s => f (canon le s))).sum / (((merged (burn n t)).length : ℕ) : ℚ) := by
+  unfold posterior
+  rw [expectation_posteriorOf, merged_burn_canon, List.map_map, List.length_map]
+  rfl
+
+/-- `mode()` returns a listed genotype whose probability is maximal over all genotypes -/
+theorem mode_is_max (h : LinLe le) (n : ℕ) (t : RawTrace α) :
+    (merged (burn n t) ≠ [] → (modeOf (posterior le n t)).isSome) ∧
+    ∀ g p, modeOf (posterior le n t) = some (g, p) →
+      (g, p) ∈ posterior le n t ∧ ∀ G, probOf (posterior le n t) G ≤ p := by
+  constructor
+  · intro hne
+    apply modeOf_isSome
+    unfold posterior
+    rw [Ne, posteriorOf_eq_nil, merged_burn_canon]
+    simpa using hne
+  · intro g p hm
+    obtain ⟨hmem, hmax⟩ := modeOf_spec hm
+    refine ⟨hmem, ?_⟩
+    intro G
+    have hnd := (posterior_entries h n t).1
+    by_cases hG : G ∈ (posterior le n t).map (·.1)
+    · obtain ⟨⟨G', q⟩, hq, e⟩ := List.mem_map.mp hG
+      simp only at e; subst e
+      rw [probOf_of_mem hnd hq]
+      exact hmax _ hq
+    · rw [probOf_of_not_mem hG]
+      exact le_of_lt ((posterior_entries h n t).2 g p hmem).2.2.1
+
+/-! ### mode support (`mode_genotype_support`, `mode(genotype_support=True)`) -/
+
+/-- the accumulated total of a support key = the total probability of the listed genotypes with that key -/
+theorem supportGroups_total (post : List (List α × ℚ)) (k : List α) :
+    probOf (supportGroups post) k = ((post.filter (fun gp => decide (uniq gp.1 = k))).map (·.2)).sum := by
+  unfold supportGroups
+  rw [probOf_foldl_addTo (fun gp : List α × ℚ => uniq gp.1) (fun gp => gp.2) k post []]
+  simp [probOf]
+
+/-- **support probability**: when a genotype `m` is reported for the mode support, the support probability (SPM)
+    is the total probability of the listed genotypes that have the same `mset.unique` as `m`; `m` is a listed
+    genotype and the most probable among them -/
+theorem support_prob_def (post : List (List α × ℚ)) (m : List α) (pm : ℚ)
+    (hm : supportModeGenotype post = some (m, pm)) :
+    supportProb post = ((post.filter (fun gp => decide (uniq gp.1 = uniq m))).map (·.2)).sum ∧
+    supportAlleles post = some (uniq m) ∧
+    (m, pm) ∈ post ∧ ∀ gp ∈ post, uniq gp.1 = uniq m → gp.2 ≤ pm := by
+  unfold supportModeGenotype at hm
+  obtain ⟨hmem, hmax⟩ := modeOf_spec hm
+  unfold modeSupportDist at hmem hmax
+  cases hk : modeSupportKey post with
+  | none => rw [hk] at hmem; simp at hmem
+  | some k =>
+    rw [hk] at hmem hmax
+    simp only [List.mem_filter, decide_eq_true_eq] at hmem hmax
+    have hkm : uniq m = k := hmem.2
+    refine ⟨?_, ?_, hmem.1, ?_⟩
+    · unfold supportProb modeSupportDist
+      rw [hk, hkm]
+    · unfold supportAlleles modeSupportDist
+      rw [hk]
+      have hne : post.filter (fun gp => decide (uniq gp.1 = k)) ≠ [] := by
+        intro e
+        have : (m, pm) ∈ post.filter (fun gp => decide (uniq gp.1 = k)) := by
+          simp only [List.mem_filter, decide_eq_true_eq]; exact hmem
+        rw [e] at this; simp at this
+      cases hf : post.filter (fun gp => decide (uniq gp.1 = k)) with
+      | nil => exact absurd hf hne
+      | cons a t =>
+        have ha : a ∈ post.filter (fun gp => decide (uniq gp.1 = k)) := by rw [hf]; simp
+        simp only [List.mem_filter, decide_eq_true_eq] at ha
+        simp [ha.2, hkm]
+    · intro gp hgp hu
+      exact hmax gp ⟨hgp, by rw [hu, hkm]⟩
+
+/-- **the reported support has maximal total probability** among the supports of the listed genotypes -/
+theorem support_is_max (post : List (List α × ℚ)) (m : List α) (pm : ℚ)
+    (hm : supportModeGenotype post = some (m, pm)) :
+    ∀ gp ∈ post, ((post.filter (fun gp' => decide (uniq gp'.1 = uniq gp.1))).map (·.2)).sum ≤ supportProb post := by
+  intro gp hgp
+  have hspec := (support_prob_def post m pm hm).1
+  -- the key chosen by `modeOf (supportGroups post)`
+  unfold supportModeGenotype at hm
+  obtain ⟨hmem, _⟩ := modeOf_spec hm
+  unfold modeSupportDist at hmem
+  cases hk : modeSupportKey post with
+  | none => rw [hk] at hmem; simp at hmem
+  | some k =>
+    rw [hk] at hmem
+    simp only [List.mem_filter, decide_eq_true_eq] at hmem
+    unfold modeSupportKey at hk
+    cases hmo : modeOf (supportGroups post) with
+    | none => rw [hmo] at hk; simp at hk
+    | some kv =>
+      obtain ⟨k', v⟩ := kv
+      rw [hmo] at hk
+      simp only [Option.map_some, Option.some.injEq] at hk
+      subst hk
+      obtain ⟨hkv, hmaxg⟩ := modeOf_spec hmo
+      have hnd : ((supportGroups post).map (·.1)).Nodup := by
+        unfold supportGroups
+        exact nodup_keys_foldl_addTo _ _ post [] (by simp)
+      have hv : v = supportProb post := by
+        rw [hspec, ← supportGroups_total, hmem.2]
+        exact (probOf_of_mem hnd hkv).symm
+      have hkey : uniq gp.1 ∈ (supportGroups post).map (·.1) := by
+        unfold supportGroups
+        rw [mem_keys_foldl_addTo]
+        exact Or.inr ⟨gp, hgp, rfl⟩
+      have hent : (uniq gp.1, probOf (supportGroups post) (uniq gp.1)) ∈ supportGroups post :=
+        (mem_iff_probOf hnd).mpr ⟨hkey, rfl⟩
+      have := hmaxg _ hent
+      rw [supportGroups_total] at this
+      rw [← hv]
+      exact this
+
+/-- … and over the trace: SPM = the fraction of retained steps whose set of distinct haplotypes / alleles is that of
+    the reported genotype -/
+theorem support_prob_empirical (h : LinLe le) (n : ℕ) (t : RawTrace α) (m : List α) (pm : ℚ)
+    (hm : supportModeGenotype (posterior le n t) = some (m, pm)) :
+    supportProb (posterior le n t)
+      = (((merged (burn n t)).countP (fun s => decide (∀ x, x ∈ s ↔ x ∈ m)) : ℕ) : ℚ)
+          / (((merged (burn n t)).length : ℕ) : ℚ) := by
+  obtain ⟨hsp, _, hmem, _⟩ := support_prob_def _ m pm hm
+  have hmc : m.Pairwise (fun a b => le a b) := ((posterior_entries h n t).2 m pm hmem).2.1
+  rw [hsp, sum_filter_eq_sum_ite]
+  have := expectation_eq (le := le) n t (fun g => if uniq g = uniq m then 1 else 0)
+  have e1 : (List.map (fun x : List α × ℚ => if decide (uniq x.1 = uniq m) = true then x.2 else 0) (posterior le n t))
+      = List.map (fun gp => gp.2 * (fun g => if uniq g = uniq m then (1 : ℚ) else 0) gp.1) (posterior le n t) := by
+    apply List.map_congr_left
+    intro gp _
+    by_cases hu : uniq gp.1 = uniq m <;> simp [hu]
+  rw [e1, this]
+  congr 1
+  have e2 : ∀ l : List (List α), (l.map (fun s => if uniq (canon le s) = uniq m then (1 : ℚ) else 0)).sum
+      = ((l.countP (fun s => decide (∀ x, x ∈ s ↔ x ∈ m)) : ℕ) : ℚ) := by
+    intro l
+    induction l with
+    | nil => simp
+    | cons s tl ih =>
+      have hiff : uniq (canon le s) = uniq m ↔ ∀ x, x ∈ s ↔ x ∈ m := by
+        rw [uniq_eq_iff_same_set h (canon_pairwise h s) hmc]
+        constructor
+        · intro hh x; rw [← hh x]; exact ((canon_perm s).mem_iff).symm
+        · intro hh x; rw [← hh x]; exact (canon_perm s).mem_iff
+      rw [List.map_cons, List.sum_cons, ih, List.countP_cons]
+      by_cases hc : ∀ x, x ∈ s ↔ x ∈ m
+      · simp [hiff.mpr hc, hc]; ring
+      · have : ¬ uniq (canon le s) = uniq m := fun e => hc (hiff.mp e)
+        simp [this, hc]
+  exact e2 _
+
+/-! ### allele frequencies / counts / occurrence (`allele_frequencies`) -/
+
+/-- **AFP · ploidy = ACP = expected copy number; occurrence = P(copy number ≥ 1)**, as averages over the retained
+    steps: the entry of haplotype `x` is `(x, Σ_steps count(x, step) / N [/ ploidy], #{steps ∋ x} / N)`, and the listed
+    haplotypes are exactly those occurring in a retained step -/
+theorem freq_count_occ_def (n : ℕ) (t : RawTrace α) (ploidy : ℕ) (dosage : Bool) :
+    (alleleFrequencies (posterior le n t) ploidy dosage
+      = (uniq ((posterior le n t).flatMap (·.1))).map (fun x =>
+          let acp : ℚ := (((merged (burn n t)).map (fun s => ((s.count x : ℕ) : ℚ))).sum)
+                          / (((merged (burn n t)).length : ℕ) : ℚ)
+          (x, (if dosage then acp else acp / (ploidy : ℚ)),
+              (((merged (burn n t)).countP (fun s => decide (x ∈ s)) : ℕ) : ℚ)
+                / (((merged (burn n t)).length : ℕ) : ℚ)))) ∧
+    ∀ x, x ∈ uniq ((posterior le n t).flatMap (·.1)) ↔ ∃ s ∈ merged (burn n t), x ∈ s := by
+  constructor
+  · unfold alleleFrequencies
+    apply List.map_congr_left
+    intro x _
+    have hw := expectation_eq (le := le) n t (fun g => ((g.count x : ℕ) : ℚ))
+    have ho := expectation_eq (le := le) n t (fun g => if x ∈ g then (1 : ℚ) else 0)
+    have hcount : ∀ s : List α, (canon le s).count x = s.count x := fun s => (canon_perm s).count_eq x
+    have hmem : ∀ s : List α, x ∈ canon le s ↔ x ∈ s := fun s => (canon_perm s).mem_iff
+    simp only [hcount] at hw
+    have ho' : ((posterior le n t).filter (fun gp => decide (x ∈ gp.1))).map (·.2) |>.sum
+        = (((merged (burn n t)).countP (fun s => decide (x ∈ s)) : ℕ) : ℚ)
+            / (((merged (burn n t)).length : ℕ) : ℚ) := by
+      rw [sum_filter_eq_sum_ite]
+      have e1 : (List.map (fun gp : List α × ℚ => if decide (x ∈ gp.1) = true then gp.2 else 0) (posterior le n t))
+          = List.map (fun gp => gp.2 * (fun g => if x ∈ g then (1 : ℚ) else 0) gp.1) (posterior le n t) := by
+        apply List.map_congr_left
+        intro gp _
+        by_cases hx : x ∈ gp.1 <;> simp [hx]
+      rw [e1, ho]
+      congr 1
+      generalize merged (burn n t) = l
+      induction l with
+      | nil => simp
+      | cons s tl ih =>
+        rw [List.map_cons, List.sum_cons, ih, List.countP_cons]
+        by_cases hx : x ∈ s
+        · simp [(hmem s).mpr hx, hx]; ring
+        · have : x ∉ canon le s := fun e => hx ((hmem s).mp e)
+          simp [this, hx]
+    simp only [hw, ho']
+  · intro x
+    rw [mem_uniq, List.mem_flatMap]
+    constructor
+    · rintro ⟨⟨g, p⟩, hgp, hx⟩
+      unfold posterior at hgp
+      rw [merged_burn_canon] at hgp
+      obtain ⟨hg, _⟩ := mem_posteriorOf.mp hgp
+      obtain ⟨s, hs, rfl⟩ := List.mem_map.mp hg
+      exact ⟨s, hs, (canon_perm s).mem_iff.mp hx⟩
+    · rintro ⟨s, hs, hx⟩
+      refine ⟨(canon le s, _), ?_, (canon_perm s).mem_iff.mpr hx⟩
+      unfold posterior
+      rw [merged_burn_canon]
+      exact mem_posteriorOf.mpr ⟨List.mem_map.mpr ⟨s, hs, rfl⟩, rfl⟩
+
+/-- the counts of the elements of a duplicate-free list that covers `g` add up to the length of `g` -/
+theorem sum_count_cover (U g : List α) (hnd : U.Nodup) (hcov : ∀ x ∈ g, x ∈ U) :
+    (U.map (fun x => ((g.count x : ℕ) : ℚ))).sum = ((g.length : ℕ) : ℚ) := by
+  have h1 : (U.map (fun x => ((g.count x : ℕ) : ℚ))).sum = ∑ x ∈ U.toFinset, ((g.count x : ℕ) : ℚ) :=
+    (List.sum_toFinset _ hnd).symm
+  have h2 : ∑ x ∈ U.toFinset, ((g.count x : ℕ) : ℚ) = ∑ x ∈ g.toFinset, ((g.count x : ℕ) : ℚ) := by
+    symm
+    apply Finset.sum_subset
+    · intro x hx; simp at hx ⊢; exact hcov x hx
+    · intro x _ hx
+      simp only [List.mem_toFinset] at hx
+      simp [List.count_eq_zero_of_not_mem hx]
+  have h3 : (∑ x ∈ g.toFinset, g.count x) = g.length := by
+    have := Finset.sum_list_map_count g (fun _ => (1 : ℕ))
+    simp at this
+    omega
+  rw [h1, h2, ← Nat.cast_sum, h3]
+
+/-- **allele frequencies sum to one** (dosages to the ploidy) when every retained step has `ploidy` elements -/
+theorem freq_sum_one (n : ℕ) (t : RawTrace α) (ploidy : ℕ) (hp : 0 < ploidy)
+    (hne : merged (burn n t) ≠ []) (hlen : ∀ s ∈ merged (burn n t), s.length = ploidy) :
+    ((alleleFrequencies (posterior le n t) ploidy false).map (·.2.1)).sum = 1 ∧
+    ((alleleFrequencies (posterior le n t) ploidy true).map (·.2.1)).sum = (ploidy : ℚ) := by
+  have key : ((alleleFrequencies (posterior le n t) ploidy true).map (·.2.1)).sum = (ploidy : ℚ) := by
+    obtain ⟨hdef, hmem⟩ := freq_count_occ_def (le := le) n t ploidy true
+    rw [hdef, List.map_map]
+    simp only [Function.comp_def, if_true]
+    set U := uniq ((posterior le n t).flatMap (·.1)) with hU
+    set L := merged (burn n t) with hL
+    have hN : ((L.length : ℕ) : ℚ) ≠ 0 := by
+      have : L.length ≠ 0 := by simpa using hne
+      exact_mod_cast this
+    -- swap the two sums
+    have swap : (U.map (fun x => (L.map (fun s => ((s.count x : ℕ) : ℚ))).sum)).sum
+        = (L.map (fun s => (U.map (fun x => ((s.count x : ℕ) : ℚ))).sum)).sum := by
+      generalize U = V
+      induction L with
+      | nil => simp
+      | cons s tl ih =>
+        simp only [List.map_cons, List.sum_cons]
+        rw [List.sum_map_add, ih]
+    have inner : ∀ s ∈ L, (U.map (fun x => ((s.count x : ℕ) : ℚ))).sum = (ploidy : ℚ) := by
+      intro s hs
+      rw [sum_count_cover U s (nodup_uniq _) (fun x hx => (hmem x).mpr ⟨s, hs, hx⟩), hlen s hs]
+    have : (U.map (fun x => (L.map (fun s => ((s.count x : ℕ) : ℚ))).sum / ((L.length : ℕ) : ℚ))).sum
+        = (U.map (fun x => (L.map (fun s => ((s.count x : ℕ) : ℚ))).sum)).sum / ((L.length : ℕ) : ℚ) := by
+      rw [div_eq_mul_inv, ← List.sum_map_mul_right]
+      simp only [div_eq_mul_inv]
+    rw [this, swap, List.map_congr_left inner]
+    simp only [List.map_const', List.sum_replicate, nsmul_eq_mul]
+    field_simp
+  refine ⟨?_, key⟩
+  have hrel : (alleleFrequencies (posterior le n t) ploidy false).map (·.2.1)
+      = ((alleleFrequencies (posterior le n t) ploidy true).map (·.2.1)).map (· / (ploidy : ℚ)) := by
+    unfold alleleFrequencies
+    simp [List.map_map, Function.comp_def]
+  rw [hrel]
+  have : (((alleleFrequencies (posterior le n t) ploidy true).map (·.2.1)).map (· / (ploidy : ℚ))).sum
+      = ((alleleFrequencies (posterior le n t) ploidy true).map (·.2.1)).sum / (ploidy : ℚ) := by
+    rw [div_eq_mul_inv, ← List.sum_map_mul_right]
+    simp only [div_eq_mul_inv]
+  rw [this, key]
+  have : (ploidy : ℚ) ≠ 0 := by exact_mod_cast (Nat.pos_iff_ne_zero.mp hp)
+  field_simp
+
+end generic
+
 end MCHap.C14
